@@ -36,13 +36,27 @@ type c31world struct {
 	consumed   int
 	strobes    int
 	gotLast    string
+	alphabet   []string // nil = full menu
 }
 
 func newC31World() world {
 	return &c31world{c: state.NewCoalescer(c31Window), start: time.Now(), deadline: -1, last: "init"}
 }
 
+// newC31DeepWorld is the same world with the reduced alphabet of the deep leg:
+// whole strobe / full-window-of-silence / consume cycles, so that long
+// histories (a consumer idle over several complete cycles, then a consume,
+// then further cycles) are reached cheaply.
+func newC31DeepWorld() world {
+	w := newC31World().(*c31world)
+	w.alphabet = []string{"strobe", "adv-one", "consume"}
+	return w
+}
+
 func (w *c31world) menu() []string {
+	if w.alphabet != nil {
+		return w.alphabet
+	}
 	m := []string{"strobe", "adv-half", "adv-one", "adv-two", "consume"}
 	if !w.terminated {
 		m = append(m, "terminate")
@@ -202,7 +216,7 @@ func TestC31(t *testing.T) {
 		depth = 1
 	}
 	var bubbleSamples sampleBudget
-	st := exploreBubble(t, newC31World, depth, deadline, func(run *bubbleRun) {
+	visit := func(run *bubbleRun) {
 		key := strings.Join(run.Events, ",")
 		signals, coalesced := 0, false
 		prevStrobe := false
@@ -237,17 +251,35 @@ func TestC31(t *testing.T) {
 				return replayBubbleEvents(t, newC31World, evs).Violation != ""
 			})
 		}
-	})
-	r.Set("bubble_sequences", st.Sequences)
-	r.Set("bubble_events", st.Events)
+	}
+	st := exploreBubble(t, newC31World, depth, deadline, visit)
+	// Deep leg: reduced alphabet, longer histories. (No state deduplication on
+	// the reference model: two histories that agree on everything the model
+	// knows may differ in hidden implementation state, which is precisely
+	// what long histories are meant to expose.)
+	deepDepth := 9
+	if vr.Thorough() {
+		deepDepth = 12
+	}
+	if os.Getenv("VERIF_SKIP_BUBBLE") != "" {
+		deepDepth = 1
+	}
+	deep := exploreBubble(t, newC31DeepWorld, deepDepth, deadline, visit)
+	r.Set("bubble_sequences", st.Sequences+deep.Sequences)
+	r.Set("bubble_events", st.Events+deep.Events)
 	r.Set("bubble_depth", depth)
-	r.Set("divergent_replays", st.Divergent)
-	r.Set("bubble_teardown_hangs", st.Hangs)
+	r.Set("bubble_deep_leg_depth", deepDepth)
+	r.Set("bubble_deep_leg_sequences", deep.Sequences)
+	r.Set("divergent_replays", st.Divergent+deep.Divergent)
+	r.Set("bubble_teardown_hangs", st.Hangs+deep.Hangs)
 	if st.Capped {
 		notExhaustive(r, fmt.Sprintf("E-bubble stage stopped by its time budget after %d sequences of depth %d", st.Sequences, depth))
 	}
+	if deep.Capped {
+		notExhaustive(r, fmt.Sprintf("E-bubble deep leg stopped by its time budget after %d sequences of depth %d", deep.Sequences, deepDepth))
+	}
 	vs := vschedC31(t, r)
-	rule := fmt.Sprintf("stage 1 (E-bubble, unmodified pkg/state, virtual time, window w=%v): every sequence of <= %d events over {strobe, advance w/2, advance w, advance 2w, non-blocking consume, terminate}; after every event the buffered-signal count is compared with a reference model of the statement. Non-trivial = a signal reached the consumer or two strobes fell inside one window; distinct by event sequence.", c31Window, depth)
+	rule := fmt.Sprintf("stage 1 (E-bubble, unmodified pkg/state, virtual time, window w=%v): every sequence of <= %d events over {strobe, advance w/2, advance w, advance 2w, non-blocking consume, terminate}; after every event the buffered-signal count is compared with a reference model of the statement. Deep leg: every sequence of <= %d events over the reduced alphabet {strobe, advance w, consume} (consumer idle over several complete cycles, then consuming). Non-trivial = a signal reached the consumer or two strobes fell inside one window; distinct by event sequence.", c31Window, depth, deepDepth)
 	if vs != "" {
 		rule += " " + vs
 	} else {
